@@ -628,4 +628,36 @@ theorem parse_safe {g : Grammar} {nul cap : List Bool} {rk : List Nat} (hw : WF 
   rw [this] at hcf
   exact safe_prune (hwi.mono (Nat.le_refl _) hle) (by simpa using hcf)
 
+/-! ### Kids inversion -/
+
+theorem Kids.call_inv {g : Grammar} {nul : List Bool} {r : Nat} {t : T} (h : Kids g nul (.call r) t) :
+    (t = .nil ∧ nul.getD r true = true) ∨
+    ∃ body b e up, g.rules[r]? = some body ∧ t = .node r b e up .nil ∧ b < e ∧ Kids g nul body up := by
+  cases h with
+  | callEmpty h => exact .inl ⟨rfl, h⟩
+  | callNode hb hk hlt => exact .inr ⟨_, _, _, _, hb, rfl, hlt, hk⟩
+
+theorem Safe.up {pt n r b e : Nat} {u nx : T} (h : Safe pt n (.node r b e u nx)) : Safe pt n u := by
+  cases h with | node _ _ _ hu _ => exact hu
+
+theorem Safe.next {pt n r b e : Nat} {u nx : T} (h : Safe pt n (.node r b e u nx)) : Safe pt n nx := by
+  cases h with | node _ _ _ _ hn => exact hn
+
+theorem Safe.of_append_left {pt n : Nat} {a b : T} (h : Safe pt n (a.append b)) : Safe pt n a := by
+  induction a with
+  | nil => exact .nil
+  | node r b0 e0 up next _ ihn =>
+    simp only [T.append] at h
+    cases h with
+    | node h1 h2 h3 hu hn => exact .node h1 h2 h3 hu (ihn hn)
+
+theorem Safe.of_append_right {pt n : Nat} {a b : T} (h : Safe pt n (a.append b)) : Safe pt n b := by
+  induction a with
+  | nil => exact h
+  | node r b0 e0 up next _ ihn =>
+    simp only [T.append] at h
+    cases h with
+    | node h1 h2 h3 hu hn => exact ihn hn
+
+
 end Peg
